@@ -342,4 +342,31 @@ func regressionCases(r *hxlib.Run, emit func(hxlib.Case)) {
 		m("1|create|bolt:j|J5", "o=0"), m("2|get|bolt:j"), m("3|create|bolt:j|J[1,2]", "o=0"), m("4|get|bolt:j"),
 		m("5|create|bolt:j|Jgarbage", "o=0"), m("6|get|bolt:j"), m("7|query|query bolt:", "q="+hx([]byte("bolt"))+":-:*"),
 		m("8|create|bolt:j|J{\"a\":1}"), m("9|get|bolt:j"), m("10|delete|bolt:j"), m("11|get|bolt:j"))
+	// the same JSON object in other spellings (leading / trailing / inner whitespace, indented, \u escapes with a
+	// duplicate member name, nesting, the empty object): accepted with success ⇒ read back by get and query
+	// (seeded change C13-r5-3: a first-byte test in front of the validation in MarshalRecord)
+	for _, db := range []string{"hmap", "bolt"} {
+		qa := "q=" + hx([]byte(db)) + ":" + hx([]byte("w")) + ":*"
+		mk("json-spellings",
+			m("1|create|"+db+":w1|J \n{\"a\":1}"), m("2|get|"+db+":w1"),
+			m("3|create|"+db+":w2|J{\n  \"a\": 1,\n  \"s\": \"x y\"\n}\n"), m("4|get|"+db+":w2"),
+			m("5|update|"+db+":w1|J\t{ }\r\n"), m("6|get|"+db+":w1"),
+			m("7|create|"+db+`:w3|J{"a":"x","a":2}`), m("8|get|"+db+":w3"),
+			m("9|create|"+db+":w4|J{\"o\":{\"o\":{\"o\":[{},[ ]]}}} "), m("10|get|"+db+":w4"),
+			m("11|query|query "+db+":w", qa))
+	}
+	// everything after the method is the key / the query text, separator characters included (seeded change C13-r5-1:
+	// the message split into four segments up front, get/query/sub/qsub/delete cut at the first bar of their argument)
+	for _, db := range []string{"hmap", "bolt"} {
+		px, py := `{"s1":"x"}`, `{"s1":"x|y"}`
+		qdb := "q=" + hx([]byte(db)) + ":"
+		mk("separator-in-key-and-query",
+			m("1|create|"+db+":a|J"+px), m("2|create|"+db+":b|J"+py),
+			m("3|get|"+db+":a|b"), m("4|get|"+db+":a|"),
+			m("5|query|query "+db+`: where s1 sameas "x|y"`, qdb+"-:"+hx([]byte("J"+py))),
+			m("6|query|query "+db+":a|", qdb+hx([]byte("a|"))+":*"),
+			m("7|delete|"+db+":a|b"), m("8|get|"+db+":a"),
+			m("9|sub|query "+db+":a| where s1 sameas x", qdb+hx([]byte("a|"))+":"+hx([]byte("J"+px))),
+			m("10|update|"+db+":a|J"+px), m("9|cancel"))
+	}
 }
